@@ -149,11 +149,17 @@ type pausingReader struct {
 	i     int
 	brk   bool
 	soft  error
+	twice bool // every interruption lasts for two reads in a row
+	again bool
 }
 
 func (p *pausingReader) Read(b []byte) (int, error) {
 	if p.brk {
-		p.brk = false
+		if p.twice && !p.again {
+			p.again = true
+		} else {
+			p.brk, p.again = false, false
+		}
 		if p.soft != nil {
 			return 0, p.soft
 		}
@@ -199,6 +205,7 @@ func runHandle(in []byte, w io.Writer, cfg *jsonconfig.Config, c vCase) chan str
 		if strings.HasSuffix(c.Cls, "timeout") {
 			pr.soft = errors.New("read /dev/ttyACM0: i/o timeout")
 		}
+		pr.twice = strings.Contains(c.Cls, "twice")
 		r = pr
 	}
 	go func() {
